@@ -26,6 +26,9 @@ def alphabet_for(tkw, hc=None):
         A.append(L.tick(500, "Q", [p("PBn", trade=0)]))  # second order in the first trade
         A.append(L.tick(500, "Q", [p("XB", trade=0)]))
         A.append(L.tick(500, "Q", [p("PBn", with_trade=True)]))  # placed inside `with trade:`
+        # a further order in the first trade even if it has completed meanwhile (limits must still hold)
+        A.append(L.tick(500, "Q", [p("PBn", trade=0, live_only=False)]))
+        A.append(L.tick(2000, "Q", [p("XB", trade=0, live_only=False)]))
         A.append(L.tick(500, "Q", [p("XB"), p("PBn")]))  # two placements in one callback
         if rich:
             A.append(L.tick(500, "Q", [p("XB", force=True)]))
